@@ -62,7 +62,7 @@ size_t pick_size(int64_t mode, int64_t k, size_t buff) {
   }
 }
 
-struct Life { AsyncPipe::Config cfg; std::vector<Step> script[kMaxProd]; unsigned sink_us = 0; };
+struct Life { AsyncPipe::Config cfg; std::vector<Step> script[kMaxProd]; unsigned sink_us = 0; bool cb_first = false; /* setCallback() before initialize() */ };
 
 // one life of the pipe object: initialize, producers, cleanup, oracle
 std::string run_life(AsyncPipe &pipe, Life &life, int nprod, int life_no, CaseInfo &info, bool &nontrivial) {
@@ -83,13 +83,15 @@ std::string run_life(AsyncPipe &pipe, Life &life, int nprod, int life_no, CaseIn
   std::mutex out_mu; std::string out; std::vector<size_t> block_sizes;
   std::atomic<int> in_cb{0}; std::atomic<bool> overlap{false};
   {
-    if (!pipe.initialize(cfg)) return "initialize() refused a valid configuration";
+    // the sink callback may be installed before or after initialize(): the API allows both orders
+    if (!life.cb_first && !pipe.initialize(cfg)) return "initialize() refused a valid configuration";
     pipe.setCallback([&](const void *p, size_t n) {
       if (in_cb.fetch_add(1) != 0) overlap = true;
       { std::lock_guard<std::mutex> lg(out_mu); out.append((const char *)p, n); block_sizes.push_back(n); }
       if (sink_us) spin_us(sink_us);
       in_cb.fetch_sub(1);
     });
+    if (life.cb_first && !pipe.initialize(cfg)) return "initialize() refused a valid configuration";
     std::vector<std::thread> th;
     for (int p = 0; p < nprod; ++p) {
       th.emplace_back([&, p] {
@@ -155,7 +157,8 @@ std::string run(const Scenario &s, CaseInfo &info) {
   int nprod = 2; uint64_t seed = 1;
   for (auto &e : g_sched) e = SchedEntry();
   std::vector<Life> lives(1);
-  auto set_cfg = [](Life &lf, const Op &op) {
+  auto set_cfg = [](Life &lf, const Op &op, size_t cb_first_arg) {
+    lf.cb_first = op.in(cb_first_arg, 0, 1) == 1;
     lf.cfg.buff_size = (size_t)kBuffSizes[op.in(0, 0, 5)];
     lf.cfg.buff_min_num = (size_t)op.in(1, 1, 3);
     lf.cfg.buff_max_num = lf.cfg.buff_min_num + (size_t)op.in(2, 0, 3);
@@ -165,8 +168,8 @@ std::string run(const Scenario &s, CaseInfo &info) {
   for (auto &op : s.ops) {
     Life &lf = lives.back();
     switch (op.code) {
-      case CFG: set_cfg(lives[0], op); nprod = (int)op.in(4, 1, kMaxProd); seed = (uint64_t)op.in(7, 1, 1 << 30); break;
-      case LIFE: if (lives.size() < 3) { lives.emplace_back(); set_cfg(lives.back(), op); } break;
+      case CFG: set_cfg(lives[0], op, 8); nprod = (int)op.in(4, 1, kMaxProd); seed = (uint64_t)op.in(7, 1, 1 << 30); break;
+      case LIFE: if (lives.size() < 3) { lives.emplace_back(); set_cfg(lives.back(), op, 7); } break;
       case SCHED: { auto &e = g_sched[op.in(0, 0, 3)]; e.permille = (unsigned)op.in(1, 0, 1000); e.delay_us = (unsigned)op.in(2, 0, 2000); break; }
       case APP: { Step st; st.kind = 0; st.pause_us = 0; st.sizes.push_back(pick_size(op.in(1, 0, 7), op.in(2, 0, 100000), lf.cfg.buff_size)); lf.script[op.in(0, 0, kMaxProd - 1)].push_back(st); break; }
       case GROUP: { Step st; st.kind = 1; st.pause_us = 0; int n = (int)op.in(1, 1, 3);
@@ -188,6 +191,7 @@ std::string run(const Scenario &s, CaseInfo &info) {
   if (!err.empty()) return err;
   info.cls_if(g_sched_hits.load() > 0, "sched_point_delay_applied");
   info.cls_if(lives.size() > 1, "pipe_object_initialised_again_after_cleanup");
+  { bool f = false; for (auto &lf : lives) if (lf.cb_first) f = true; info.cls_if(f, "callback_installed_before_initialize"); }
   info.nontrivial = nontrivial;
   return "";
 }
@@ -195,7 +199,7 @@ std::string run(const Scenario &s, CaseInfo &info) {
 SubDef def = [] {
   SubDef d; d.name = "pipe";
   d.op_names = {"cfg", "sched", "app", "group", "pause", "life"};
-  d.op_arity = {8, 3, 3, 6, 2, 7};
+  d.op_arity = {9, 3, 3, 6, 2, 8};
   d.nt_rule = ">= 2 producer threads with data, and (an append larger than 2 buffers, or a timed flush of a partial buffer observed as a short block before the end, or a slow sink callback giving back-pressure)";
   d.run = run;
 #ifndef VERIF_ENGINE_FUZZ
@@ -207,9 +211,9 @@ SubDef def = [] {
       {8, mkop(APP, {prod, mode, k})},
       {3, mkop(GROUP, {prod, range(1, 3), mode, mode, mode, k})},
       {4, mkop(PAUSE, {prod, rc::gen::weightedOneOf<int64_t>({{2, range(0, 50)}, {2, range(1000, 3000)}, {1, range(5000, 12000)}})})},
-      {1, mkop(LIFE, {range(0, 5), range(1, 3), range(0, 3), oneOfValues({0, 0, 0, 1, 1, 2, 3, 3}), range(0, 0), range(0, 3), range(0, 300)})},
+      {1, mkop(LIFE, {range(0, 5), range(1, 3), range(0, 3), oneOfValues({0, 0, 0, 1, 1, 2, 3, 3}), range(0, 0), range(0, 3), range(0, 300), range(0, 1)})},
     });
-    auto cfg = mkop(CFG, {range(0, 5), range(1, 3), range(0, 3), oneOfValues({0, 0, 0, 1, 1, 2, 3, 3}), range(1, kMaxProd), range(0, 3), range(0, 300), range(1, 1 << 30)});
+    auto cfg = mkop(CFG, {range(0, 5), range(1, 3), range(0, 3), oneOfValues({0, 0, 0, 1, 1, 2, 3, 3}), range(1, kMaxProd), range(0, 3), range(0, 300), range(1, 1 << 30), range(0, 1)});
     auto sched = mkop(SCHED, {range(0, 3), oneOfValues({0, 100, 500, 1000}), oneOfValues({0, 20, 200, 1500})});
     return scenarioOf(fixedOps({cfg, sched, sched, sched}), opsOf(opg));
   };
